@@ -67,10 +67,23 @@ UF_OPS = [("add", 1, 10), ("union", 2, 22), ("find", 1, 8), ("connected", 2, 14)
           ("contains", 1, 4), ("getitem", 1, 6)]
 
 
-def gen_uf_history(rng, maxlen=40):
+def gen_init(rng, n):
+    """constructor argument: none at all, None, or a list/tuple/set/frozenset/generator WITH duplicates"""
+    r = rng.random()
+    if r < 0.35:
+        return None
+    if r < 0.40:
+        return {"kind": "none", "elems": []}
+    kind = rng.choice(["list", "list", "tuple", "set", "frozenset", "gen"])
+    m = rng.choice([0, 1, 2, 3, 5, 8])
+    return {"kind": kind, "elems": [rng.randrange(n) for _ in range(m)]}
+
+
+def gen_uf_history(rng, maxlen=40, ambient=True):
     kind = rng.choice(KINDS)
     n = rng.randint(1, 8)
     pool = make_pool(rng, kind, n)
+    init = gen_init(rng, n)
     L = rng.choice([0, 1, 2, 3, 5, 8, 12, 20, 30, maxlen])
     names = [o[0] for o in UF_OPS]
     weights = [o[2] for o in UF_OPS]
@@ -82,16 +95,33 @@ def gen_uf_history(rng, maxlen=40):
         if nm == "getitem":
             # raw index: in range, negative (Python lists would accept it, __getitem__ must not), == len, beyond
             args = [rng.choice([rng.randint(0, n), rng.randint(0, n), rng.randint(-n - 1, -1), n, n + 1,
-                                len({a for o in ops if o[0] in ("add", "union") for a in o[1:]})])]
+                                len({a for o in ops if o[0] in ("add", "union") for a in o[1:]}
+                                    | set(init["elems"] if init else []))])]
         if nm == "union" and rng.random() < 0.08:
             args[1] = args[0]  # self-union
         ops.append([nm] + args)
-    return {"kind": kind, "elts": pool, "ops": ops}
+    case = {"kind": kind, "elts": pool, "init": init, "ops": ops}
+    if ambient and rng.random() < 0.3:
+        # a second structure over the same element objects, alive in the same session, operations interleaved
+        other = gen_uf_history(rng, maxlen, ambient=False)
+        k = len(pool)
+        case["ambient"] = {"init": gen_init(rng, k),
+                           "ops": [[o[0]] + ([o[1]] if o[0] == "getitem" else [a % k for a in o[1:]]) for o in other["ops"]]}
+    return case
 
 
-def gen_pq_history(rng, maxlen=40):
+def pq_ops(c):
+    return c["ops"] if isinstance(c, dict) else c
+
+
+def gen_pq_history(rng, maxlen=40, ambient=True):
+    """payloads are codes; the driver turns code k into an object of kind k % 5 (int, str, tuple, None, complex):
+    mutually unorderable, as the payload field is declared compare=False"""
+    if ambient and rng.random() < 0.3:
+        return {"ops": gen_pq_history(rng, maxlen, False),
+                "ambient": [gen_pq_history(rng, maxlen, False) for _ in range(rng.choice([1, 1, 2]))]}
     L = rng.choice([0, 1, 2, 4, 8, 16, 30, maxlen])
-    style = rng.choice(["ties", "spread", "inf", "neg"])
+    style = rng.choice(["ties", "ties", "spread", "inf", "neg"])
     ops = []
     nxt = 0
     for _ in range(L):
@@ -145,12 +175,12 @@ OPC = {"add": "Add", "union": "Union", "find": "Find", "connected": "Connected",
        "contains": "Contains", "getitem": "GetItem"}
 
 
-def uf_case_term(case, obs):
+def uf_case_term(case, obs, order=None):
     items = []
     for op, o in zip(case["ops"], obs):
         t = OPC[op[0]] + "".join(" " + zlit(a) for a in op[1:])
         items.append("(%s, %s)" % (t if len(op) == 1 else "(" + t + ")", obs_term(o)))
-    return coq_list(items)
+    return "(%s, %s)" % ("None" if order is None else "(Some %s)" % zlist(order), coq_list(items))
 
 
 BIG = 10 ** 9
@@ -167,6 +197,7 @@ def prio_z(w):
 
 
 def pq_case_term(ops, obs):
+    ops = pq_ops(ops)
     items = []
     for op, (o, data) in zip(ops, obs):
         if op[0] == "push":
@@ -193,13 +224,26 @@ def pq_case_term(ops, obs):
 
 
 # ---------------------------------------------------------------------- independent oracle (property restated)
-def oracle_uf(case, obs):
-    """Naive partition semantics: returns None or a description of the first observation that violates C20."""
+def oracle_uf(case, obs, order=None):
+    """Naive partition semantics: returns None or a description of the first observation that violates C20.
+    `order` is the sequence in which the constructor's container handed out its elements (None: no container)."""
     comp = {}  # code -> frozenset (insertion-ordered: the i-th key is the i-th distinct element added)
 
     def ensure(a):
         if a not in comp:
             comp[a] = frozenset([a])
+
+    init = case.get("init")
+    if init and init.get("kind") not in (None, "noarg", "none"):
+        if order is None:
+            return "op 0 constructor: no iteration order reported for %s" % (init,)
+        if init["kind"] in ("set", "frozenset"):
+            if sorted(order) != sorted(set(init["elems"])):
+                return "op 0 constructor: a set of %s iterated as %s" % (sorted(set(init["elems"])), order)
+        elif list(order) != list(init["elems"]):
+            return "op 0 constructor: %s iterated as %s" % (init["elems"], order)
+        for a in order:   # the constructor adds each element; duplicates are no-ops
+            ensure(a)
 
     for k, (op, o) in enumerate(zip(case["ops"], obs)):
         nm, args = op[0], op[1:]
@@ -252,6 +296,7 @@ def oracle_uf(case, obs):
 
 
 def oracle_pq(ops, obs):
+    ops = pq_ops(ops)
     pending = []  # list of (x, prio)
 
     def val(w):
@@ -327,7 +372,11 @@ def run(ctx):
     n_uf = 1500 if quick else 40000
     n_pq = 600 if quick else 15000
     ctx.rule = ("union-find histories: <=40 ops over a pool of 1-8 hashable elements of kind int/tuple/str/mixed, "
-                "weighted op alphabet incl. repeated adds, self-unions, unions and queries of absent elements; "
+                "weighted op alphabet incl. repeated adds, self-unions, unions and queries of absent elements, uf[i]; each history "
+                "starts with a constructor call (no argument, None, or a list/tuple/set/frozenset/generator of elements with "
+                "duplicates and mixed kinds); 30% of the cases have a second UnionFind (resp. 1-2 more PriorityQueue objects) "
+                "alive in the same session with interleaved operations; queue payloads are of mutually unorderable kinds "
+                "(int, str, tuple, None, complex); "
                 "queue histories: <=40 ops with ties, negatives, +-inf. Non-trivial = at least one union (resp. one pop "
                 "with >=2 pending) ; distinct = by canonical JSON of the history")
     ctx.assumptions += ["hashable elements enter the model as integer codes (the structure only hashes/compares them)",
@@ -357,24 +406,33 @@ def run(ctx):
     payloads = [{"uf": ufs[i::nsh], "pq": pqs[i::nsh]} for i in range(nsh)]
     results = core.run_impl_parallel("vf.impl.c20_driver", payloads, timeout=900)
     uf_obs = [None] * len(ufs)
+    uf_order = [None] * len(ufs)
     pq_obs = [None] * len(pqs)
     for i, r in enumerate(results):
         for j, o in zip(range(i, len(ufs), nsh), r["uf"]):
-            uf_obs[j] = o
+            uf_obs[j] = o["obs"]
+            uf_order[j] = o["order"]
         for j, o in zip(range(i, len(pqs), nsh), r["pq"]):
             pq_obs[j] = o
 
     for c, o in zip(ufs, uf_obs):
         ctx.count("uf kind=" + c["kind"])
         ctx.count("uf len<=%d" % (10 * ((len(c["ops"]) + 9) // 10)))
+        ctx.count("uf constructor " + ((c.get("init") or {}).get("kind", "noarg")
+                                       + ("+dup" if len(set((c.get("init") or {}).get("elems", []))) < len((c.get("init") or {}).get("elems", [])) else "")))
+        if c.get("ambient"):
+            ctx.count("uf with a second structure alive")
         for op, ob in zip(c["ops"], o):
             ctx.count("uf op " + op[0])
             if ob[0] in ("valueerror", "indexerror", "other"):
                 ctx.count("uf answer " + ob[0])
-        ctx.case_seen(["uf", c["elts"], c["ops"]], nontrivial=any(op[0] == "union" and op[1] != op[2] for op in c["ops"]),
+        ctx.case_seen(["uf", c["elts"], c.get("init"), c["ops"]], nontrivial=any(op[0] == "union" and op[1] != op[2] for op in c["ops"]),
                       sample={"uf_history": c["ops"][:12], "elements": c["elts"], "observed": o[:12]})
-    for c, o in zip(pqs, pq_obs):
+    for c0, o in zip(pqs, pq_obs):
+        c = pq_ops(c0)
         ctx.count("pq len<=%d" % (10 * ((len(c) + 9) // 10)))
+        if isinstance(c0, dict) and c0.get("ambient"):
+            ctx.count("pq with %d other queue(s) alive" % len(c0["ambient"]))
         for op in c:
             ctx.count("pq op " + op[0])
         ctx.case_seen(["pq", c], nontrivial=sum(1 for op in c if op[0] == "push") >= 2 and any(op[0] in ("pop", "get") for op in c),
@@ -383,7 +441,7 @@ def run(ctx):
     # 1. independent oracle on every case (this is also the search for a failing input)
     fails = []
     for idx, (c, o) in enumerate(zip(ufs, uf_obs)):
-        m = oracle_uf(c, o)
+        m = oracle_uf(c, o, uf_order[idx])
         if m:
             fails.append(("uf", idx, m))
     for idx, (c, o) in enumerate(zip(pqs, pq_obs)):
@@ -398,8 +456,8 @@ def run(ctx):
     # 2. kernel-checked correspondence
     bad_uf = bad_pq = []
     if b["model_ok"]:
-        bad_uf = ctx.run_cases("uf", HEADER, [uf_case_term(c, o) for c, o in zip(ufs, uf_obs)], "check_uf",
-                               case_type="list (op * obs)")
+        bad_uf = ctx.run_cases("uf", HEADER, [uf_case_term(c, o, r) for c, o, r in zip(ufs, uf_obs, uf_order)],
+                               "check_uf_case", case_type="(option (list Z) * list (op * obs))")
         bad_pq = ctx.run_cases("pq", HEADER, [pq_case_term(c, o) for c, o in zip(pqs, pq_obs)], "check_pq",
                                case_type="list (qop * qobs * list item)")
     else:
@@ -425,11 +483,14 @@ def run(ctx):
             def f(ops, case=case):
                 cc = dict(case, ops=ops)
                 ob = core.run_impl("vf.impl.c20_driver", {"uf": [cc]})["uf"][0]
-                return oracle_uf(cc, ob) is not None
-            small = shrink_ops(case, case["ops"], f)
+                return oracle_uf(cc, ob["obs"], ob["order"]) is not None
+            small = shrink_ops(case, case["ops"], f) if f(case["ops"]) else case["ops"]
             cc = dict(case, ops=small)
+            if cc.get("ambient") and f(small, dict(case, ambient=None)):
+                cc["ambient"] = None   # the second structure is not needed for the failure
             ob = core.run_impl("vf.impl.c20_driver", {"uf": [cc]})["uf"][0]
-            ctx.violation("union-find: " + (oracle_uf(cc, ob) or msg), {"uf": cc, "observed": ob, "class": key}, key=key)
+            ctx.violation("union-find: " + (oracle_uf(cc, ob["obs"], ob["order"]) or msg),
+                          {"uf": cc, "observed": ob, "class": key}, key=key)
         else:
             ops = pqs[idx]
             key = "pq/" + msg.split(" ")[2]
@@ -437,17 +498,23 @@ def run(ctx):
                 continue
             reported.add(key)
 
-            def g(o2):
-                ob = core.run_impl("vf.impl.c20_driver", {"pq": [o2]})["pq"][0]
+            amb = ops.get("ambient", []) if isinstance(ops, dict) else []
+
+            def g(o2, amb=amb):
+                cc = {"ops": o2, "ambient": amb} if amb else o2
+                ob = core.run_impl("vf.impl.c20_driver", {"pq": [cc]})["pq"][0]
                 return oracle_pq(o2, ob) is not None
-            small = shrink_ops(None, ops, g)
+            small = shrink_ops(None, pq_ops(ops), g) if g(pq_ops(ops)) else pq_ops(ops)
+            if amb and g(small, []):
+                amb = []
+            small = {"ops": small, "ambient": amb} if amb else small
             ob = core.run_impl("vf.impl.c20_driver", {"pq": [small]})["pq"][0]
             ctx.violation("priority queue: " + (oracle_pq(small, ob) or msg), {"pq": small, "observed": ob, "class": key}, key=key)
     if (bad_uf or bad_pq) and not fails:
         ctx.notes.append("model/implementation disagree on uf cases %s, pq cases %s but the oracle accepts the implementation's answers"
                          % ((bad_uf or [])[:5], (bad_pq or [])[:5]))
         for i in (bad_uf or [])[:3]:
-            ctx.log("disagreement uf case", i, json.dumps(ufs[i]["ops"]), json.dumps(uf_obs[i]))
+            ctx.log("disagreement uf case", i, json.dumps(ufs[i].get("init")), json.dumps(ufs[i]["ops"]), json.dumps(uf_obs[i]))
         for i in (bad_pq or [])[:3]:
             ctx.log("disagreement pq case", i, json.dumps(pqs[i]), json.dumps(pq_obs[i]))
 
@@ -455,7 +522,7 @@ def run(ctx):
 def replay(ctx, data):
     if "uf" in data:
         ob = core.run_impl("vf.impl.c20_driver", {"uf": [data["uf"]]})["uf"][0]
-        m = oracle_uf(data["uf"], ob)
+        m = oracle_uf(data["uf"], ob["obs"], ob["order"])
     elif "pq" in data:
         ob = core.run_impl("vf.impl.c20_driver", {"pq": [data["pq"]]})["pq"][0]
         m = oracle_pq(data["pq"], ob)
